@@ -31,7 +31,12 @@ def plan(tier):
                 pl.units.append(U("D.reply.%s.%s.%s" % (st, code, text), "contracts.replies", "h_status_reply", (st, code, text),
                                   setup=("contracts.reader", "setup_summaries"), native_ok=True, sample_models=True))
 
+    pl.units.append(U("M.rename-emulated", "contracts.rename", "h_rename", (), setup=("contracts.rename", "setup_rename"),
+                      replay=("contracts.rename_replay", "replay")))
+
     def lf(u, label):
+        if u.uid == "M.rename-emulated":
+            return label in ("all-steps-OK-old-present-target-free-gives-True", "only-False-True-or-Error", "boolean-result")
         return label.startswith(("S3.", "S2.", "S1.", "S4.", "R1.")) or label in ("R2.response-code", "R2.classified-text-is-the-first-line")
 
     pl.label_filter = lf
@@ -55,7 +60,9 @@ def plan(tier):
         "replacing stale values (the regex groups are computed on the STRUCTURE of the shaped text, pyvc/shape.py; cvc5 "
         "closes the strip lemma). S3 -- every script operation, run authenticated against the contract of __send_command, returns "
         "True/data iff the reply was OK, False/None iff NO, and lets Error through for BYE or silence, sending exactly one "
-        "command of its verb (all paths). S1 -- the line classified by __read_line is the first line of the stream and a "
+        "command of its verb (all paths). M -- the multi-step operation (emulated rename): for every store and every outcome of "
+        "every step only True / False / Error come out, and when the old script exists, the target is free and every step is "
+        "answered OK the result is True. S1 -- the line classified by __read_line is the first line of the stream and a "
         "Response carries OK or NO only. Bounded (labelled bounded, exhaustive over the pool): 8 operations x 3 statuses x "
         "4 response-code shapes x 5 text shapes x values, each followed by a content-returning sentinel command; checks "
         "return value, errcode, errmsg and that the reader stopped at the end of the reply.")
